@@ -1131,6 +1131,31 @@ pub fn cli(args: &[String]) {
                 }
             }
         }
+        // the recursive-start witnesses of finding FC23a (case lines)
+        Some("witness") => {
+            std::panic::set_hook(Box::new(|_| {}));
+            for l in witnesses() {
+                println!("@@ {l}");
+            }
+        }
         _ => standard_cli(args, generate, run_case),
     }
+}
+
+/// Grammars whose start symbol is recursive: the start action is called once per application.
+pub fn witnesses() -> Vec<String> {
+    let mut out = vec![];
+    for (body, lalr, sents) in [
+        ("S: \"a\" [ S ];", false, vec!["a a", "a a a"]),
+        ("S: S \"a\" | \"b\";", true, vec!["b a"]),
+    ] {
+        let par = full_par(body, lalr);
+        let (Some(b), Some(st)) = (build_dyn(&par), original_start(&par)) else { continue };
+        for s in sents {
+            if let Some(l) = case_line(&b, &par, &st, s) {
+                out.push(l);
+            }
+        }
+    }
+    out
 }
